@@ -31,11 +31,15 @@ def Sound (e : Elem) (s : St) : Prop :=
 def Acc (e : Elem) (s : St) : Prop :=
   s.num = (s.cache.map (·.2.id)).toFinset.card ∧ s.num ≤ e.maxN ∧ ∀ p ∈ s.cache, p.2.id < s.next
 
-/-- First entries appear in creation order: every entry either repeats an earlier identity or has
-an identity larger than all earlier ones. Hence the head entry belongs to the oldest instance. -/
-def FirstSorted : List Nat → Prop
-  | [] => True
-  | x :: l => FirstSorted l ∧ ∀ y ∈ l, x ≤ y
+/-- First entries appear in creation order: the list of identities is built by appending either an
+identity that is already present (an alias) or one larger than all present (a new instance). -/
+inductive FirstSorted : List Nat → Prop
+  | nil : FirstSorted []
+  | old (l : List Nat) (x : Nat) : FirstSorted l → x ∈ l → FirstSorted (l ++ [x])
+  | new (l : List Nat) (x : Nat) : FirstSorted l → (∀ y ∈ l, y < x) → FirstSorted (l ++ [x])
+
+/-- The dict is ordered oldest instance first. -/
+def Fifo (s : St) : Prop := FirstSorted (s.cache.map (·.2.id))
 
 /-! ### Lists / dict operations -/
 
@@ -415,6 +419,106 @@ theorem getInstanceDataHow_acc {e : Elem} (hmax : 1 ≤ e.maxN) {s s' : St}
           · simp at hp; rcases hp with rfl | rfl <;> rfl
         omega
 
+/-! ### FIFO order -/
+
+theorem FirstSorted.head_le {l : List Nat} (h : FirstSorted l) :
+    ∀ x t, l = x :: t → ∀ y ∈ l, x ≤ y := by
+  induction h with
+  | nil => intro x t hl; cases hl
+  | old l z hfs hz ih =>
+    intro x t hl y hy
+    cases l with
+    | nil => cases hz
+    | cons a l' =>
+      simp only [List.cons_append, List.cons.injEq] at hl
+      obtain ⟨rfl, _⟩ := hl
+      have := ih a l' rfl
+      simp only [List.mem_append, List.mem_singleton] at hy
+      rcases hy with hy | rfl
+      · exact this y hy
+      · exact this y hz
+  | new l z hfs hz ih =>
+    intro x t hl y hy
+    cases l with
+    | nil =>
+      simp at hl
+      obtain ⟨rfl, _⟩ := hl
+      simp at hy; omega
+    | cons a l' =>
+      simp only [List.cons_append, List.cons.injEq] at hl
+      obtain ⟨rfl, _⟩ := hl
+      have := ih a l' rfl
+      simp only [List.mem_append, List.mem_singleton] at hy
+      rcases hy with hy | rfl
+      · exact this y hy
+      · exact Nat.le_of_lt (hz a (by simp))
+
+theorem FirstSorted.filter_ne {l : List Nat} (h : FirstSorted l) (z : Nat) :
+    FirstSorted (l.filter (fun y => y != z)) := by
+  induction h with
+  | nil => exact .nil
+  | old l x hfs hx ih =>
+    rw [List.filter_append]
+    by_cases hxz : x = z
+    · subst hxz; simpa using ih
+    · have : [x].filter (fun y => y != z) = [x] := by simp [hxz]
+      rw [this]
+      exact .old _ _ ih (by simp [List.mem_filter, hx, hxz])
+  | new l x hfs hx ih =>
+    rw [List.filter_append]
+    by_cases hxz : x = z
+    · subst hxz; simpa using ih
+    · have : [x].filter (fun y => y != z) = [x] := by simp [hxz]
+      rw [this]
+      exact .new _ _ ih (fun y hy => hx y (List.mem_of_mem_filter hy))
+
+theorem map_filter_id (v : Nat) (rest : List (Key × Inst)) :
+    (rest.filter (fun p => p.2.id != v)).map (·.2.id)
+      = (rest.map (·.2.id)).filter (fun y => y != v) := by
+  induction rest with
+  | nil => rfl
+  | cons p rest ih =>
+    by_cases h : p.2.id = v <;> simp [List.filter_cons, h, ih]
+
+theorem evict_fifo {e : Elem} {s s' : St} (hf : Fifo s) (h : evict e s = .ok s') : Fifo s' := by
+  unfold evict at h
+  split at h
+  · split at h
+    · cases h
+    · rename_i k0 v0 rest hc
+      cases h
+      show FirstSorted ((rest.filter (fun p => p.2.id != v0.id)).map (·.2.id))
+      have : FirstSorted ((s.cache.map (·.2.id)).filter (fun y => y != v0.id)) := hf.filter_ne v0.id
+      rw [hc] at this
+      simpa [map_filter_id] using this
+  · cases h; exact hf
+
+/-- **FIFO step**: requests keep the dict ordered oldest instance first. -/
+theorem getInstanceDataHow_fifo {e : Elem} {s s' : St}
+    {i o : Option GridId} {w : Option WlKey} {v : Inst} {how : How} (ha : Acc e s) (hf : Fifo s)
+    (h : getInstanceDataHow e s i o w = .ok (s', v, how)) : Fifo s' := by
+  obtain ⟨k1, k2, hk1, hk2, hcase⟩ := getInstanceDataHow_cases h
+  rcases hcase with ⟨_, rfl, hl⟩ | ⟨_, hl1, hl2, rfl⟩ | ⟨_, hl1, hl2, rfl, se, hev, rfl⟩
+  · exact hf
+  · show FirstSorted ((s.cache ++ [(k1, v)]).map (·.2.id))
+    rw [List.map_append]
+    exact .old _ _ hf (List.mem_map.mpr ⟨(k2, v), lookup_mem hl2, rfl⟩)
+  · have hfe := evict_fifo hf hev
+    obtain ⟨hver, hnext, hsub⟩ := evict_ok hev
+    have hlt : ∀ y ∈ se.cache.map (·.2.id), y < s.next := by
+      intro y hy
+      obtain ⟨p, hp, rfl⟩ := List.mem_map.mp hy
+      exact ha.2.2 p (hsub p hp)
+    show FirstSorted ((se.cache ++ _).map (·.2.id))
+    rw [List.map_append]
+    by_cases hk : k1 = k2
+    · simp only [hk, if_true, List.map_cons, List.map_nil]
+      exact .new _ _ hfe hlt
+    · simp only [hk, if_false, List.map_cons, List.map_nil]
+      have : se.cache.map (·.2.id) ++ [s.next, s.next] = (se.cache.map (·.2.id) ++ [s.next]) ++ [s.next] := by simp
+      rw [this]
+      exact .old _ _ (.new _ _ hfe hlt) (by simp)
+
 /-! ### `step` -/
 
 theorem step_req_ok {e : Elem} {s s' : St} {i o : Option GridId} {w : Option WlKey} {v : Inst}
@@ -426,5 +530,215 @@ theorem step_req_err {e : Elem} {s : St} {i o : Option GridId} {w : Option WlKey
     (h : getInstanceData e s i o w = .error err) :
     step e s (.req i o w) = (s, .error err) := by
   simp only [step, h]
+
+theorem getInstanceData_ok_iff {e : Elem} {s s' : St} {i o : Option GridId} {w : Option WlKey}
+    {v : Inst} :
+    getInstanceData e s i o w = .ok (s', v) ↔ ∃ how, getInstanceDataHow e s i o w = .ok (s', v, how) := by
+  unfold getInstanceData
+  constructor
+  · intro h
+    split at h
+    · cases h
+    · rename_i s1 v1 how heq
+      cases h
+      exact ⟨how, heq⟩
+  · rintro ⟨how, h⟩
+    rw [h]
+
+
+/-! ## The unrepaired code: transparent for *consistent* elements only -/
+namespace Old
+
+/-! ### Soundness invariant and transparency for consistent elements (gridDep = wlDep = true) -/
+
+def Consistent (e : Elem) : Prop :=
+  e.gridDep = true ∧ e.wlDep = true ∧
+  (∀ a b, e.getOut a = some b → e.getIn b = some a) ∧
+  (∀ a b, e.getIn b = some a → e.getOut a = some b) ∧
+  (∀ a, ∃ b, e.getOut a = some b) ∧ (∀ b, ∃ a, e.getIn b = some a)
+
+def WF (e : Elem) (v : Inst) : Prop :=
+  ∃ a b k, v.i = some a ∧ v.o = some b ∧ v.w = some k ∧ e.getOut a = some b ∧ e.getIn b = some a
+
+def KeyOf (k : Key) (v : Inst) : Prop :=
+  k.w = v.w ∧ (k.i = v.i ∨ k.i = none) ∧ (k.o = v.o ∨ k.o = none) ∧ ¬(k.i = none ∧ k.o = none)
+
+def Sound (e : Elem) (s : St) : Prop :=
+  ∀ p ∈ s.cache, WF e p.2 ∧ KeyOf p.1 p.2 ∧ p.2.ver = s.ver
+
+theorem lookup_mem {cache : List (Key × Inst)} {k : Key} {v : Inst} (h : lookup cache k = some v) :
+    (k, v) ∈ cache := by
+  unfold lookup at h
+  cases hf : cache.find? (fun p => decide (p.1 = k)) with
+  | none => simp [hf] at h
+  | some p =>
+    simp [hf] at h
+    have hm := List.mem_of_find?_eq_some hf
+    have hp := List.find?_some hf
+    simp at hp
+    cases p with
+    | mk a b => simp at hp h; subst hp; subst h; exact hm
+
+theorem lookupFirst_mem {cache : List (Key × Inst)} {ks : List Key} {v : Inst}
+    (h : lookupFirst cache ks = some v) : ∃ k ∈ ks, (k, v) ∈ cache := by
+  induction ks with
+  | nil => simp [lookupFirst] at h
+  | cons k ks ih =>
+    unfold lookupFirst at h
+    cases hl : lookup cache k with
+    | some w =>
+      simp [hl] at h; subst h
+      exact ⟨k, by simp, lookup_mem hl⟩
+    | none =>
+      simp [hl] at h
+      obtain ⟨k', hk', hm⟩ := ih h
+      exact ⟨k', by simp [hk'], hm⟩
+
+theorem assign_mem {cache : List (Key × Inst)} {k : Key} {v : Inst} {p : Key × Inst}
+    (h : p ∈ assign cache k v) : p ∈ cache ∨ p = (k, v) := by
+  unfold assign at h
+  split at h
+  · simp only [List.mem_map] at h
+    obtain ⟨q, hq, hqp⟩ := h
+    split at hqp
+    · right; exact hqp.symm
+    · left; subst hqp; exact hq
+  · simp at h
+    rcases h with h | h
+    · left; exact h
+    · right; exact h
+
+theorem foldl_assign_mem {keys : List Key} {cache : List (Key × Inst)} {v : Inst} {p : Key × Inst}
+    (h : p ∈ keys.foldl (fun c k => assign c k v) cache) : p ∈ cache ∨ (p.2 = v ∧ p.1 ∈ keys) := by
+  induction keys generalizing cache with
+  | nil => left; simpa using h
+  | cons k ks ih =>
+    simp only [List.foldl_cons] at h
+    rcases ih h with h1 | ⟨h2, h3⟩
+    · rcases assign_mem h1 with h1 | h1
+      · left; exact h1
+      · right; subst h1; simp
+    · right; exact ⟨h2, by simp [h3]⟩
+
+theorem forward_transparent (e : Elem) (hc : Consistent e) (s s' : St) (hs : Sound e s)
+    (a : GridId) (k : WlKey) (v : Inst)
+    (h : getInstanceData e s (some a) none (some k) = some (s', v)) :
+    v = fresh e s.ver (some a) none (some k) ∧ Sound e s' := by
+  obtain ⟨hg, hw, hoi, hio, htot, _⟩ := hc
+  unfold getInstanceData at h
+  simp only [getKeys, hg, hw, if_true] at h
+  -- first stage
+  split at h
+  · rename_i v1 h1
+    simp at h
+    obtain ⟨rfl, rfl⟩ := h
+    refine ⟨?_, hs⟩
+    obtain ⟨k1, hk1, hm⟩ := lookupFirst_mem h1
+    simp at hk1; subst hk1
+    obtain ⟨⟨a', b', k', hi, ho, hwv, hout, hin⟩, ⟨hkw, hki, hko, _⟩, hver⟩ := hs _ hm
+    have ha : a' = a := by
+      rcases hki with h | h
+      · have h' : some a = v1.i := h
+        rw [hi] at h'; simpa using h'.symm
+      · exact absurd h (by simp)
+    subst ha
+    have hk : k' = k := by
+      have h' : some k = v1.w := hkw
+      rw [hwv] at h'; simpa using h'.symm
+    subst hk
+    unfold fresh
+    rcases v1 with ⟨vi, vo, vw, vv⟩
+    simp at hi ho hwv hver
+    simp [hout, hi, ho, hwv, hver]
+  · rename_i h1
+    -- second stage: resolve output grid
+    cases hout : e.getOut a with
+    | none =>
+      obtain ⟨b, hb⟩ := htot a
+      rw [hb] at hout; simp at hout
+    | some b =>
+      simp only [hout, Option.bind, getKeys, hg, hw, if_true] at h
+      split at h
+      · rename_i v2 h2
+        simp at h
+        obtain ⟨rfl, rfl⟩ := h
+        refine ⟨?_, hs⟩
+        obtain ⟨k2, hk2, hm⟩ := lookupFirst_mem h2
+        obtain ⟨⟨a', b', k', hi, ho, hwv, hout', hin'⟩, ⟨hkw, hki, hko, hnn⟩, hver⟩ := hs _ hm
+        have hin := hoi a b hout
+        simp at hk2
+        have hk : k' = k := by
+          have h' : k2.w = some k := by rcases hk2 with rfl | rfl | rfl <;> rfl
+          have h'' : k2.w = v2.w := hkw
+          rw [hwv, h'] at h''; simpa using h''.symm
+        subst hk
+        have hcase : k2.i = some a ∨ k2.o = some b := by
+          rcases hk2 with rfl | rfl | rfl
+          · left; rfl
+          · left; rfl
+          · right; rfl
+        have hab : a' = a ∧ b' = b := by
+          rcases hcase with hc | hc
+          · rcases hki with h | h
+            · rw [hc, hi] at h
+              have : a' = a := by simpa using h.symm
+              subst this
+              rw [hout] at hout'
+              exact ⟨rfl, by simpa using hout'.symm⟩
+            · rw [hc] at h; exact absurd h (by simp)
+          · rcases hko with h | h
+            · rw [hc, ho] at h
+              have : b' = b := by simpa using h.symm
+              subst this
+              rw [hin] at hin'
+              exact ⟨by simpa using hin'.symm, rfl⟩
+            · rw [hc] at h; exact absurd h (by simp)
+        obtain ⟨rfl, rfl⟩ := hab
+        unfold fresh
+        rcases v2 with ⟨vi, vo, vw, vv⟩
+        simp at hi ho hwv hver
+        simp [hout, hi, ho, hwv, hver]
+      · rename_i h2
+        -- creation
+        simp only [Option.map_eq_some_iff] at h
+        obtain ⟨s1, hadd, hpair⟩ := h
+        simp at hpair
+        obtain ⟨rfl, rfl⟩ := hpair
+        refine ⟨by simp [fresh, hout], ?_⟩
+        unfold addToCache at hadd
+        simp only [Option.map_eq_some_iff] at hadd
+        obtain ⟨se, hev, rfl⟩ := hadd
+        -- evicted state is sound and has same version
+        have hse : Sound e se ∧ se.ver = s.ver := by
+          split at hev
+          · split at hev
+            · simp at hev
+            · rename_i k0 v0 rest hcache
+              split at hev
+              · simp at hev
+              · split at hev
+                · simp at hev
+                · simp at hev; subst hev
+                  refine ⟨?_, rfl⟩
+                  intro p hp
+                  have : p ∈ s.cache := by
+                    rw [hcache]; exact List.mem_cons_of_mem _ (List.mem_of_mem_drop hp)
+                  exact hs p this
+          · simp at hev; subst hev; exact ⟨hs, rfl⟩
+        obtain ⟨hse1, hse2⟩ := hse
+        intro p hp
+        simp only at hp
+        rcases foldl_assign_mem hp with h | ⟨h1, h2⟩
+        · have := hse1 p h
+          simpa [hse2] using this
+        · refine ⟨?_, ?_, ?_⟩
+          · rw [h1]; exact ⟨a, b, k, rfl, rfl, rfl, hout, hoi a b hout⟩
+          · rw [h1]
+            simp at h2
+            rcases h2 with h | h | h <;> (rw [h]; simp [KeyOf])
+          · rw [h1]; simp [hse2]
+
+
+end Old
 
 end HcipyVerif.Cache
